@@ -72,6 +72,9 @@ var c11JWTKey = simkeys.FixtureKey("ec256")
 // issuer-templated key-set URL: issuer "ab" publishes c11JWTKey under the key id "c", issuer "a" publishes
 // c11JWTKey2 under the key id "bc" (URL and key id are taken from the token before anything is verified)
 var c11JWTKey2 = simkeys.FixtureKey("ec256b")
+
+// (in some runs both issuers name their key alike, as issuers that number their keys do)
+var c11KidAB, c11KidA = "c", "bc"
 var c11IssuerJWKS map[string][]byte
 
 func c11Digest(req *http.Request, body []byte) string {
@@ -510,6 +513,19 @@ func c11Build(s *simcore.Source) c11Scenario {
 			sc.overrides = "assertions.audience"
 			step2 = "    - authenticator: mut\n      config:\n        assertions:\n          audience: [ \"svc-bob\" ]\n    - finalizer: echo"
 		}
+		if epAuth == "" && s.Draw(3, "twin-endpoint-credentials") == 2 {
+			// two mechanisms on one introspection endpoint which authenticate there as different clients (RFC 7662 lets
+			// the server answer per caller): the rules use one each
+			one := func(id, key string) string {
+				return "    - id: " + id + "\n      type: oauth2_introspection\n      config:\n        introspection_endpoint:\n          url: http://idp/introspect\n" +
+					"          auth:\n            type: api_key\n            config:\n              in: header\n              name: X-Api-Key\n              value: " + key + "\n" + hy +
+					"        assertions:\n          issuers: [ \"iss1\" ]\n        subject:\n          id: sub\n          attributes: \"@this\"\n        cache_ttl: 5m\n"
+			}
+			sc.mech = "mechanisms:\n  authenticators:\n" + one("mut", "key-1") + one("mut2", "key-2") +
+				"  finalizers:\n    - id: echo\n      type: header\n      config:\n        headers:\n          X-User: \"{{ .Subject.ID }}\"\n          X-Digest: \"{{ .Subject.Attributes.digest }}\"\n"
+			step2 = "    - authenticator: mut2\n    - finalizer: echo"
+			sc.overrides = "twin-mechanism(endpoint credentials)"
+		}
 		sc.rules = fmt.Sprintf(c11RuleTpl, step1, step2)
 		sc.describe = fmt.Sprintf("headers=%v endpoint-auth=%v", hkeys, epAuth != "")
 		if s.Draw(3, "jwt-shaped-access-tokens") == 2 {
@@ -548,6 +564,11 @@ func c11Build(s *simcore.Source) c11Scenario {
 			sc.rules = fmt.Sprintf(c11RuleTpl, "    - authenticator: mut\n    - finalizer: echo", "    - authenticator: mut\n    - finalizer: echo")
 			sc.overrides, sc.variation = "", "issuer-templated-url"
 			sc.usesExtra, sc.extraHow = true, "selects issuer, key id and signing key of the presented token"
+			c11KidAB, c11KidA = "c", "bc"
+			if s.Draw(2, "issuers-share-a-key-id") == 1 {
+				c11KidAB, c11KidA = "1", "1"
+				sc.describe += " same-kid"
+			}
 			sc.describe = "issuer-templated key-set URL"
 		}
 	case "jwt-finalizer":
@@ -614,12 +635,12 @@ func c11Do(e *env, sc c11Scenario, q c11Req) c11Obs {
 		now := time.Now().Unix()
 		hdr["Authorization"] = "Bearer " + simkeys.SignJWT(c11JWTKey, "k1", map[string]any{"iss": "iss1", "sub": q.user, "iat": now - 1, "exp": now + 3600})
 		if sc.variation == "issuer-templated-url" {
-			key, kid, iss := c11JWTKey, "c", "ab" // extra "x": a token of issuer ab
+			key, kid, iss := c11JWTKey, c11KidAB, "ab" // extra "x": a token of issuer ab
 			switch q.extra {
 			case "y": // a token of issuer a
-				key, kid, iss = c11JWTKey2, "bc", "a"
+				key, kid, iss = c11JWTKey2, c11KidA, "a"
 			case "xb": // claims issuer a and names its key id, but is signed with the key of issuer ab
-				key, kid, iss = c11JWTKey, "bc", "a"
+				key, kid, iss = c11JWTKey, c11KidA, "a"
 			}
 			hdr["Authorization"] = "Bearer " + simkeys.SignJWT(key, kid, map[string]any{"iss": iss, "sub": q.user, "iat": now - 1, "exp": now + 3600})
 		}
@@ -684,8 +705,8 @@ func c11Sim(r *simcore.Run) {
 		}
 		c11Genuine, c11Shaped = map[string]bool{}, map[string]string{}
 		c11IssuerJWKS = map[string][]byte{
-			"ab": simkeys.JWKSJSON(jose.JSONWebKey{Key: c11JWTKey.Public(), KeyID: "c", Algorithm: string(simkeys.AlgFor(c11JWTKey)), Use: "sig"}),
-			"a":  simkeys.JWKSJSON(jose.JSONWebKey{Key: c11JWTKey2.Public(), KeyID: "bc", Algorithm: string(simkeys.AlgFor(c11JWTKey2)), Use: "sig"}),
+			"ab": simkeys.JWKSJSON(jose.JSONWebKey{Key: c11JWTKey.Public(), KeyID: c11KidAB, Algorithm: string(simkeys.AlgFor(c11JWTKey)), Use: "sig"}),
+			"a":  simkeys.JWKSJSON(jose.JSONWebKey{Key: c11JWTKey2.Public(), KeyID: c11KidA, Algorithm: string(simkeys.AlgFor(c11JWTKey2)), Use: "sig"}),
 		}
 		// request history: each new request is an earlier one with at most one component changed
 		users, ids, rules, extras, extras2 := []string{"alice", "bob"}, []string{"1", "2"}, []string{"a", "b"}, []string{"x", "y", "xb"}, []string{"by", "y"}
@@ -693,7 +714,12 @@ func c11Sim(r *simcore.Run) {
 		reqs := []c11Req{{rule: "a", id: "1", user: "alice", extra: "x", extra2: "by"}}
 		for len(reqs) < n {
 			q := reqs[s.Draw(len(reqs), "base")]
-			switch s.Draw(7, "mutate") {
+			switch s.Draw(8, "mutate") {
+			case 7:
+				// the two client-supplied values change places
+				if sc.usesExtra2 {
+					q.extra, q.extra2 = q.extra2, q.extra
+				}
 			case 6:
 				if sc.usesExtra2 {
 					// the colliding pair
